@@ -70,9 +70,10 @@ def c01_plan(tier, seed):
     if tier == "quick":
         return jobs("os-debug", "c01", 16, c01_env, timeout=300) + \
             jobs("inproc-debug", "c01", 3, None, {"cap": 1 << 20, "huge": 0}, timeout=300)
-    return jobs("os-debug", "c01", 40, c01_env, timeout=1500) + \
-        jobs("os-release", "c01", 10, c01_env, timeout=1500) + \
-        jobs("inproc-debug", "c01", 6, None, {"huge": 0}, timeout=1500)
+    return jobs("os-debug", "c01", 64, c01_env, {"mult": 6}, timeout=3000) + \
+        jobs("os-release", "c01", 32, c01_env, {"mult": 6}, timeout=3000) + \
+        jobs("memfd-debug", "c01", 8, c01_env, {"mult": 2}, timeout=3000) + \
+        jobs("inproc-debug", "c01", 8, None, {"huge": 0, "mult": 4}, timeout=3000)
 
 
 def c01_require(agg):
@@ -106,11 +107,11 @@ def c02_plan(tier, seed):
     n = 14 if tier == "quick" else 48
     for j in jobs("os-debug", "c02", n, c02_env, timeout=900):
         j["opts"]["cpus"] = [1, 2, 0][j["batch"] % 3]
-        j["opts"]["histories"] = 40 if tier == "quick" else 150
+        j["opts"]["histories"] = 40 if tier == "quick" else 500
         out.append(j)
     for j in jobs("inproc-debug", "c02", 2 if tier == "quick" else 6, None, timeout=900):
         j["opts"]["cpus"] = [0, 2][j["batch"] % 2]
-        j["opts"]["histories"] = 20 if tier == "quick" else 150
+        j["opts"]["histories"] = 20 if tier == "quick" else 500
         out.append(j)
     return out
 
@@ -143,7 +144,7 @@ def c03_env(b):
 def c03_plan(tier, seed):
     out = []
     for v, nb in (("os-debug", 10), ("memfd-debug", 2), ("inproc-debug", 4)):
-        for j in jobs(v, "c03", nb if tier == "quick" else nb * 3, c03_env, {"cases": 100 if tier == "quick" else 800}, timeout=1500):
+        for j in jobs(v, "c03", nb if tier == "quick" else nb * 3, c03_env, {"cases": 100 if tier == "quick" else 2500}, timeout=1500):
             out.append(j)
     out += c03_race_jobs(tier)
     return out
@@ -155,7 +156,7 @@ def c03_race_jobs(tier, modes=(0, 1, 2, 3), per_mode=2):
     for m in modes:
         for k in range(per_mode if q else per_mode * 2):
             out.append({"variant": "os-debug" if k % 2 == 0 else "os-release", "family": "c03r", "batch": m + 4 * k, "nbatch": 16, "env": {},
-                        "opts": {"rounds": 60000 if q else 400000}, "timeout": 3000})
+                        "opts": {"rounds": 60000 if q else 1500000}, "timeout": 3000})
     out.append({"variant": "inproc-debug", "family": "c03r", "batch": modes[0], "nbatch": 16, "env": {}, "opts": {"rounds": 20000 if q else 100000}, "timeout": 3000})
     return out
 
@@ -188,9 +189,9 @@ def c04_env(b):
 def c04_plan(tier, seed):
     out = []
     q = tier == "quick"
-    out += jobs("os-debug", "c04", 10 if q else 24, c04_env, {"cases": 150 if q else 1200}, timeout=3000)
-    out += jobs("memfd-debug", "c04", 2 if q else 6, c04_env, {"cases": 150 if q else 1200}, timeout=3000)
-    out += jobs("inproc-debug", "c04", 3 if q else 6, None, {"cases": 150 if q else 1200}, timeout=3000)
+    out += jobs("os-debug", "c04", 10 if q else 24, c04_env, {"cases": 150 if q else 4000}, timeout=3000)
+    out += jobs("memfd-debug", "c04", 2 if q else 6, c04_env, {"cases": 150 if q else 4000}, timeout=3000)
+    out += jobs("inproc-debug", "c04", 3 if q else 6, None, {"cases": 150 if q else 4000}, timeout=3000)
     return out
 
 
@@ -214,7 +215,7 @@ def c05_plan(tier, seed):
     q = tier == "quick"
     out = []
     for v, nb in (("os-debug", 6), ("memfd-debug", 5), ("inproc-debug", 3)):
-        out += jobs(v, "c05", nb if q else nb * 3, None, {"cases": 200 if q else 1500}, timeout=3000)
+        out += jobs(v, "c05", nb if q else nb * 3, None, {"cases": 200 if q else 5000, "cap": (1 << 20) if q else (8 << 20)}, timeout=3000)
     return out
 
 
@@ -244,8 +245,8 @@ def c06_env(b):
 
 def c06_plan(tier, seed):
     q = tier == "quick"
-    out = jobs("os-debug", "c06", 12 if q else 32, c06_env, {"cases": 30 if q else 250}, timeout=3000)
-    out += jobs("inproc-debug", "c06", 3 if q else 8, None, {"cases": 30 if q else 250}, timeout=3000)
+    out = jobs("os-debug", "c06", 12 if q else 32, c06_env, {"cases": 30 if q else 600}, timeout=3000)
+    out += jobs("inproc-debug", "c06", 3 if q else 8, None, {"cases": 30 if q else 600}, timeout=3000)
     out += [j for j in c03_race_jobs(tier, modes=(1,), per_mode=2) if j["variant"] != "inproc-debug"]
     return out
 
@@ -288,11 +289,13 @@ def c07_env(b):
 
 def c07_plan(tier, seed):
     q = tier == "quick"
-    out = jobs("os-debug", "c07", 12 if q else 32, c07_env, {"cases": 40 if q else 300}, timeout=3000)
+    out = jobs("os-debug", "c07", 12 if q else 32, c07_env, {"cases": 40 if q else 800}, timeout=3000)
     g = jobs("os-debug", "c07", 14 if q else 34, c07_env, {"cases": 10 if q else 100, "global": 1}, timeout=1800)
     out += g[-2:]
-    sw = jobs("os-debug", "c07", 40, None, {"cases": 1200 if q else 6000, "small": 1}, timeout=3000)
+    sw = jobs("os-debug", "c07", 40, None, {"cases": 1200 if q else 25000, "small": 1}, timeout=3000)
     out += sw[30:35] if q else sw[20:36]
+    st = jobs("os-debug", "c07", 60, c07_env, {"cases": 20 if q else 300, "storm": 1}, timeout=3000)
+    out += st[40:43] if q else st[40:56]
     out += jobs("inproc-debug", "c07", 2 if q else 6, None, {"cases": 40 if q else 300}, timeout=3000)
     return out
 
@@ -323,7 +326,7 @@ def c08_env(b):
 
 def c08_plan(tier, seed):
     q = tier == "quick"
-    out = jobs("os-debug", "c08", 10 if q else 28, c08_env, {"cases": 40 if q else 250}, timeout=3000)
+    out = jobs("os-debug", "c08", 10 if q else 28, c08_env, {"cases": 40 if q else 500}, timeout=3000)
     out += jobs("inproc-debug", "c08", 2 if q else 4, None, {"cases": 40 if q else 250}, timeout=3000)
     return out
 
@@ -359,7 +362,7 @@ def c09_env(b):
 
 def c09_plan(tier, seed):
     q = tier == "quick"
-    out = jobs("os-debug", "c09", 12 if q else 32, c09_env, {"cases": 300 if q else 2000}, timeout=3000)
+    out = jobs("os-debug", "c09", 12 if q else 32, c09_env, {"cases": 300 if q else 6000}, timeout=3000)
     out += jobs("inproc-debug", "c09", 3 if q else 6, None, {"cases": 300 if q else 2000}, timeout=3000)
     return out
 
@@ -405,9 +408,9 @@ def c10_require(agg):
 
 def c11_plan(tier, seed):
     q = tier == "quick"
-    out = jobs("os-debug", "c11", 9 if q else 24, None, {"programs": 40 if q else 1200}, timeout=3000)
-    out += jobs("os-release", "c11", 4 if q else 12, None, {"programs": 40 if q else 1200}, timeout=3000)
-    out += jobs("memfd-debug", "c11", 3 if q else 8, None, {"programs": 40 if q else 1200}, timeout=3000)
+    out = jobs("os-debug", "c11", 9 if q else 24, None, {"programs": 40 if q else 3000}, timeout=3000)
+    out += jobs("os-release", "c11", 4 if q else 12, None, {"programs": 40 if q else 3000}, timeout=3000)
+    out += jobs("memfd-debug", "c11", 3 if q else 8, None, {"programs": 40 if q else 3000}, timeout=3000)
     return out
 
 
@@ -469,9 +472,9 @@ def c13_require(agg):
 
 def c14_plan(tier, seed):
     q = tier == "quick"
-    out = jobs("os-debug", "c14", 8 if q else 16, None, {"cases": 1500 if q else 10000}, timeout=3000)
-    out += jobs("os-release", "c14", 2 if q else 6, None, {"cases": 1500 if q else 10000}, timeout=3000)
-    out += jobs("inproc-debug", "c14", 3 if q else 6, None, {"cases": 1500 if q else 10000}, timeout=3000)
+    out = jobs("os-debug", "c14", 8 if q else 16, None, {"cases": 1500 if q else 40000}, timeout=3000)
+    out += jobs("os-release", "c14", 2 if q else 6, None, {"cases": 1500 if q else 40000}, timeout=3000)
+    out += jobs("inproc-debug", "c14", 3 if q else 6, None, {"cases": 1500 if q else 40000}, timeout=3000)
     return out
 
 
@@ -501,9 +504,9 @@ def c15_require(agg):
 
 def c16_plan(tier, seed):
     q = tier == "quick"
-    out = jobs("os-debug", "c16", 10 if q else 20, None, {"cases": 2000 if q else 15000}, timeout=3000)
-    out += jobs("os-release", "c16", 5 if q else 10, None, {"cases": 2000 if q else 15000}, timeout=3000)
-    out += jobs("memfd-debug", "c16", 1 if q else 4, None, {"cases": 2000 if q else 15000}, timeout=3000)
+    out = jobs("os-debug", "c16", 10 if q else 20, None, {"cases": 2000 if q else 60000}, timeout=3000)
+    out += jobs("os-release", "c16", 5 if q else 10, None, {"cases": 2000 if q else 60000}, timeout=3000)
+    out += jobs("memfd-debug", "c16", 1 if q else 4, None, {"cases": 2000 if q else 60000}, timeout=3000)
     return out
 
 
@@ -531,7 +534,7 @@ def c17_env(b):
 
 def c17_plan(tier, seed):
     q = tier == "quick"
-    out = jobs("os-debug", "c17", 12 if q else 28, c17_env, {"cases": 60 if q else 400}, timeout=3000)
+    out = jobs("os-debug", "c17", 12 if q else 28, c17_env, {"cases": 60 if q else 1000}, timeout=3000)
     out += jobs("inproc-debug", "c17", 3 if q else 6, None, {"cases": 60 if q else 400}, timeout=3000)
     return out
 
@@ -570,15 +573,23 @@ def c18_plan(tier, seed):
     asan("c18", [0], 1, {}, {"rounds": 6 if q else 60})
     out += jobs("os-debug", "c18", 1, None, {"rounds": 12 if q else 150}, timeout=3000)
     out += jobs("memfd-debug", "c18", 1, None, {"rounds": 6 if q else 60}, timeout=3000)
+    vg = ["valgrind", "-q", "--error-exitcode=99", "--suppressions=%s/memcheck.supp" % os.path.dirname(os.path.abspath(__file__)),
+          "--errors-for-leak-kinds=none", "--leak-check=no"]
+    if q:
+        # a small memcheck leg in the quick tier too (no poisoning: definedness of received bytes)
+        for fam, b, nb, env, opts in (("c01", 1, 16, {"IPCMON_SNDBUF": 8192}, {"cap": 1 << 16, "huge": 0}), ("c01", 5, 16, {"IPCMON_SNDBUF": 4099}, {"cap": 1 << 16, "huge": 0}),
+                                      ("c13", 3, 10, {"IPCMON_SNDBUF": 8192}, {}), ("c18", 0, 1, {}, {"rounds": 2})):
+            e = dict(env)
+            e["VERIF_DEFINEDNESS"] = "1"
+            out.append({"variant": "os-release", "family": fam, "batch": b, "nbatch": nb, "env": e, "opts": dict(opts), "timeout": 3000, "wrap": vg, "tool": "memcheck"})
     if not q:
         out += miri_jobs([("c19", 4, {"programs": 6}), ("c04", 2, {"cases": 3}), ("c05", 2, {"cases": 4, "cap": 20000, "huge": 0}),
                           ("c14", 2, {"cases": 12}), ("c03", 2, {"cases": 3}), ("c03r", 1, {"rounds": 40})])
-        vg = ["valgrind", "-q", "--error-exitcode=99", "--suppressions=%s/memcheck.supp" % os.path.dirname(os.path.abspath(__file__)),
-              "--errors-for-leak-kinds=none", "--leak-check=no"]
         for fam, nb, env, opts in (("c01", 5, sb, {"cap": 1 << 18, "huge": 0}), ("c05", 2, {}, {"cases": 30, "huge": 0, "cap": 1 << 16}),
                                    ("c13", 2, {"IPCMON_SNDBUF": 8192}, {}), ("c18", 1, {}, {"rounds": 4})):
             for b in range(nb):
                 e = dict(env(b) if callable(env) else env)
+                e["VERIF_DEFINEDNESS"] = "1"
                 out.append({"variant": "os-release", "family": fam, "batch": b, "nbatch": max(nb, 10) if fam == "c13" else nb, "env": e, "opts": dict(opts),
                             "timeout": 3000, "wrap": vg, "tool": "memcheck"})
     return out
@@ -606,7 +617,7 @@ def c18_require(agg):
     st = agg["stats"]
     need = []
     t = st.get("batches_by_tool_and_generator", {})
-    for g in ("asan:c01", "asan:c04", "asan:c05", "asan:c12", "asan:c13", "asan:c15", "asan:c18", "ub_checks:c18"):
+    for g in ("asan:c01", "asan:c04", "asan:c05", "asan:c12", "asan:c13", "asan:c15", "asan:c18", "ub_checks:c18", "memcheck:c01"):
         if t.get(g, 0) < 1:
             need.append("no batch of %s" % g)
     if st.get("mon_poisoned_buffers", 0) < 1000:
@@ -629,7 +640,7 @@ def c20_env(b):
 
 def c20_plan(tier, seed):
     q = tier == "quick"
-    return jobs("async-debug", "c20", 14 if q else 32, c20_env, {"cases": 40 if q else 300}, timeout=3000)
+    return jobs("async-debug", "c20", 14 if q else 32, c20_env, {"cases": 40 if q else 900}, timeout=3000)
 
 
 def c20_require(agg):
@@ -650,7 +661,7 @@ def c19_plan(tier, seed):
     out = []
     nb = 5 if tier == "quick" else 15
     for v in ("os-debug", "memfd-debug", "inproc-debug"):
-        for j in jobs(v, "c19", nb, None, {"programs": 600 if tier == "quick" else 4000}, timeout=1500):
+        for j in jobs(v, "c19", nb, None, {"programs": 600 if tier == "quick" else 12000}, timeout=1500):
             out.append(j)
     if tier != "quick":
         out += miri_jobs([("c19", 8, {"programs": 6})])
@@ -727,6 +738,7 @@ PROPS = {
                       "and under ASan; every munmap is paired with its mmap by the interposer's ledger. Thorough adds valgrind memcheck on the release build without "
                       "poisoning (definedness of received bytes, one exact-signature suppression for sender-side cmsg padding).",
         "level_note": "ASan is a red-zone tool: overflows that stay inside one allocation or jump past the red zones, and anything inside mmap'ed regions, are not seen by it; "
+                      "valgrind marks the whole requested length of recv()/recvfrom() as written, so a short follow-up read is invisible to memcheck (only recvmsg is tracked precisely); "
                       "the payload oracles and the mmap ledger cover part of that gap. Miri cannot execute the OS transport (sendmsg).",
         "technique": "sanitizers: AddressSanitizer + LeakSanitizer build with LD_PRELOAD receive-buffer poisoning, std ub_checks in debug builds, mmap/munmap ledger, valgrind memcheck (thorough)",
         "rule": "case = one generated message/region/crash/fault shape of the reused generators executed under a sanitizer; distinct = the generator's own shape key; all are non-trivial",
